@@ -44,10 +44,16 @@ const (
 	ChainID      = "lava-verif"
 )
 
-// cuOf maps the symbolic "huge" CU of the behaviours (Wrap) to 2^64-5
+// cuOf maps the symbolic "huge" CUs of the behaviours to numbers near the top of uint64
+// (specs/Payments.tla, "Huge CU"): Wrap = 2^64-5, Wrap+1 = 2^63 (MaxInt64+1), Wrap+2 = 2^63-1 (MaxInt64)
 func cuOf(cu int) uint64 {
-	if cu >= Wrap {
+	switch cu {
+	case Wrap:
 		return ^uint64(0) - 4
+	case Wrap + 1:
+		return uint64(1) << 63
+	case Wrap + 2:
+		return uint64(1)<<63 - 1
 	}
 	return uint64(cu)
 }
